@@ -75,8 +75,11 @@ def checkGain {ns nc : Nat} (g : Gain F ns nc) : Except String Unit := do
   match cholArr g.Quu with
   | none => throw "contract:not-pd"
   | some _ => pure ()
-  let r1 := flatM (madd (mmul g.Quu g.K) g.Qux)
-  let r2 := flatV (vadd (mulVec g.Quu g.k) g.qu)
+  -- `torch.linalg.cholesky` reads only the LOWER triangle: for a (nearly) non-symmetric `Quu` the kernel factorises the matrix
+  -- mirrored from its lower triangle; the contract is re-checked against that matrix (identical for symmetric input)
+  let Ms : Mat F nc nc := mat fun i j => if j.val ≤ i.val then g.Quu[i][j] else g.Quu[j][i]
+  let r1 := flatM (madd (mmul Ms g.K) g.Qux)
+  let r2 := flatV (vadd (mulVec Ms g.k) g.qu)
   let tiny : F := ⟨1, -120⟩
   let sc1 := BigF.add (maxAbs (flatM g.Qux)) (BigF.mul (BigF.ofNat (nc+1)) (BigF.mul (maxAbs (flatM g.Quu)) (maxAbs (flatM g.K))))
   let sc2 := BigF.add (maxAbs (flatV g.qu)) (BigF.mul (BigF.ofNat (nc+1)) (BigF.mul (maxAbs (flatM g.Quu)) (maxAbs (flatV g.k))))
